@@ -89,11 +89,12 @@ where
             write!(result, "{start},{second_processor_id}")
                 .expect("writing to a String is infallible");
         } else {
-            let last_processor_id = start
-                .checked_add(len)
-                .expect("overflow impossible unless we far exceed any realistic processor ID range")
+            // Subtract before adding: `start + len` is one past the last item, which does not
+            // fit in the item type when the range ends at its maximum value.
+            let last_processor_id = len
                 .checked_sub(1)
-                .expect("cannot underflow because len is NonZero");
+                .and_then(|offset| start.checked_add(offset))
+                .expect("the last item of the range is one of the input items, so it fits in the item type");
 
             write!(result, "{start}-{last_processor_id}")
                 .expect("writing to a String is infallible");
